@@ -73,6 +73,7 @@ type world struct {
 	// monitor bookkeeping
 	removed map[int]bool // oracle ids undelegated by governance while their record exists
 	pct     sdkmath.LegacyDec
+	joined  map[int]int64  // height of the latest (re-)join of each oracle, tracked by the harness itself (bond, or AddDelegate of an offline oracle)
 	gone    map[int]*goneT // oracles whose record was deleted by a successful unbond: watched for a few more blocks
 }
 
@@ -494,6 +495,7 @@ func (w *world) opBond(o, b, e, v int, amt sdkmath.Int) {
 	if res == "ok" {
 		delete(w.removed, o)
 		delete(w.gone, o)
+		w.joined[o] = w.ctx().BlockHeight()
 		if !wasProposal {
 			w.violate("bond without governance approval: BondedOracle succeeded for an address not on the proposal-oracle list")
 		}
@@ -525,7 +527,11 @@ func (w *world) opAdd(o int, amt sdkmath.Int) {
 				w.violate("stake outside the configured bounds after a successful AddDelegate")
 			}
 			if hadRec && !before.Online && now.Online {
+				w.joined[o] = w.ctx().BlockHeight()
 				w.out.Nontrivial("add:back-online")
+				if now.StartHeight != w.ctx().BlockHeight() {
+					w.violate(fmt.Sprintf("liable for objects created before it joined: oracle %d came back online at height %d but its record keeps start height %d", o, w.ctx().BlockHeight(), now.StartHeight))
+				}
 				if now.SlashTimes != 0 {
 					w.violate("penalty charged more than once: oracle is back online with a non-zero slash counter")
 				}
@@ -839,12 +845,16 @@ func (w *world) opBlock(dt int64) {
 				all = false
 			}
 			old := x.height+w.window < h || (x.kind == "call" && x.height+w.window <= h)
-			if uint64(o.StartHeight) <= x.height && old && !conf {
+			start := o.StartHeight
+			if j, ok := w.joined[id]; ok {
+				start = j // the height the PROPERTY implies: the latest (re-)join, not what the record says
+			}
+			if uint64(start) <= x.height && old && !conf {
 				missed = true
 			}
 		}
 		if !missed {
-			w.violate(fmt.Sprintf("slashed without a missed signing: oracle %d went offline in the end-blocker although no oracle set / batch / bridge call created at or after its start height is older than the signed window and unconfirmed by it (confirmed everything=%v)", id, all))
+			w.violate(fmt.Sprintf("slashed without a missed signing: oracle %d went offline in the end-blocker although no oracle set / batch / bridge call created at or after the height it (re-)joined is older than the signed window and unconfirmed by it (confirmed everything=%v)", id, all))
 		}
 		if now.SlashTimes != o.SlashTimes+1 {
 			w.violate("penalty charged more than once: slash_times did not advance by exactly one in the slashing block")
@@ -888,7 +898,7 @@ func (w *world) opValSlash(v int, num, den int64) {
 func newWorld(t *testing.T, out *hx.Out, rng *rand.Rand, mode string, cfg cfgT) *world {
 	nval := 2 + rng.Intn(2)
 	s := hx.NewSuite(t, nval)
-	w := &world{t: t, s: s, k: s.App.EthKeeper, out: out, rng: rng, mode: mode, nval: nval, now: baseTime, removed: map[int]bool{}, gone: map[int]*goneT{}}
+	w := &world{t: t, s: s, k: s.App.EthKeeper, out: out, rng: rng, mode: mode, nval: nval, now: baseTime, removed: map[int]bool{}, gone: map[int]*goneT{}, joined: map[int]int64{}}
 	w.ms = crosschainkeeper.NewMsgServerImpl(w.k)
 	w.commitAt(w.now)
 	ctx := w.ctx()
@@ -1055,6 +1065,13 @@ func (w *world) opNudge() {
 	}
 	w.out.Count("nudge")
 	w.opAdd(o, amt)
+}
+
+func (w *world) oracles0Bridger() string {
+	if rec, ok := w.k.GetOracle(w.ctx(), w.oracles[0].AccAddress()); ok {
+		return rec.BridgerAddress
+	}
+	return w.bridgers[0].String()
 }
 
 func (w *world) records() []types.Oracle { return w.k.GetAllOracles(w.ctx(), false) }
@@ -1241,7 +1258,7 @@ func (w *world) lifecycle(variant int) {
 	w.opBond(0, 0, 0, 0, max.AddRaw(1))
 	w.opBond(0, 0, 0, 0, max.Add(w.thr))
 	for i := 0; i < n; i++ {
-		if variant%8 == 5 && i == n-1 {
+		if variant%9 == 5 && i == n-1 {
 			continue // the late joiner
 		}
 		w.opBond(i, i, i, i%w.nval, w.thr)
@@ -1251,15 +1268,55 @@ func (w *world) lifecycle(variant int) {
 		dil[i] = true
 	}
 	w.opAdd(1, max.Sub(w.thr).AddRaw(1)) // one above the maximum in total
-	if variant%8 == 7 {
+	if variant%9 == 7 {
 		delete(dil, 0) // oracle 0 never confirms anything, not even the first oracle set it is a member of
 	}
 	w.opBlock(5)
 	w.confirmRound(dil, 1)
-	if (variant/8)%2 == 1 { // the latest oracle set is observed on the external chain, then nothing changes for a while
+	if (variant/9)%2 == 1 { // the latest oracle set is observed on the external chain, then nothing changes for a while
 		w.opObserve(w.k.GetLatestOracleSetNonce(w.ctx()))
 	}
-	switch variant % 8 {
+	switch variant % 9 {
+	case 8: // slash → re-join → keep confirming everything created after the re-join → run past the signed window of the
+		// objects created in / before the slashing block (incl. the oracle set the chain emits in the block of the slash)
+		delete(dil, 0)
+		if (variant/9)%2 == 0 {
+			w.opMkCall()
+		} else {
+			w.opMkBatch()
+		}
+		slashed := false
+		for i := uint64(0); i < w.window+3 && !w.dead && !slashed; i++ {
+			w.opBlock(5)
+			if w.dead {
+				break
+			}
+			w.confirmRound(dil, 1)
+			if rec, ok := w.k.GetOracle(w.ctx(), w.oracles[0].AccAddress()); ok && !rec.Online {
+				slashed = true
+			}
+		}
+		if slashed && !w.dead {
+			if (variant/9)%2 == 1 {
+				w.opBlock(5) // re-join one block later
+				w.confirmRound(dil, 1)
+			}
+			rec, _ := w.k.GetOracle(w.ctx(), w.oracles[0].AccAddress())
+			w.opAdd(0, rec.GetSlashAmount(w.k.GetSlashFraction(w.ctx())).AddRaw(1))
+			join := uint64(w.ctx().BlockHeight())
+			for i := uint64(0); i < w.window+4 && !w.dead; i++ {
+				w.opBlock(5)
+				if w.dead {
+					break
+				}
+				w.confirmRound(dil, 1)
+				for _, x := range w.objects() { // oracle 0 confirms exactly what was created at or after its re-join
+					if x.height >= join && !strings.Contains("."+w.confExts(x.kind, x.nonce)+".", ".0.") {
+						w.opConf(x.kind, x.nonce, 0, w.bid(w.oracles0Bridger()), true)
+					}
+				}
+			}
+		}
 	case 6: // unbond transactions around the maturity of the unbonding entry: completion-1, =completion (inside the block,
 		// before the staking end-blocker pays out), the block after
 		w.opGov(all[1:])
@@ -1330,7 +1387,7 @@ func (w *world) lifecycle(variant int) {
 		w.opMkCall()
 		w.confirmRound(dil, 1)
 		w.opEditB(0, n)
-		if (variant/8)%2 == 0 {
+		if (variant/9)%2 == 0 {
 			w.opEditB(1, n+1)
 		}
 		for i := uint64(0); i < w.window+3 && !w.dead; i++ {
@@ -1347,7 +1404,7 @@ func (w *world) lifecycle(variant int) {
 		w.opWithdraw(0)
 		w.opBlock(5)
 		w.confirmRound(dil, 1)
-		if (variant/8)%2 == 0 {
+		if (variant/9)%2 == 0 {
 			w.opUnbond(0)
 		}
 		w.opBlock(w.unb + 1)
@@ -1382,7 +1439,7 @@ func (w *world) lifecycle(variant int) {
 		w.opGov(all[1:])
 		w.opBlock(w.unb + 1)
 		w.confirmRound(dil, 1)
-		if (variant/8)%2 == 0 {
+		if (variant/9)%2 == 0 {
 			w.opGov(all)
 			w.opAdd(0, w.thr)
 			w.opBlock(5)
@@ -1399,8 +1456,8 @@ func runAll(t *testing.T, mode string) {
 	rng := rand.New(rand.NewSource(seed))
 	out := hx.NewOut()
 	defer out.Close("correspondence: real eth crosschain module + real staking/bank (FinalizeBlock per `block`, block time moved past the unbonding period) vs Lean model, canonical registry/stake/slashing state after every op; monitors: registry one-to-one, bond bounds, penalty once, stake recoverable (dry-run UnbondedOracle after maturity), slashed only for missed signing, FinalizeBlock never panics. non-trivial = distinct (op, outcome) classes")
-	nseq := hx.N(36, 400)
-	const nLife = 16
+	nseq := hx.N(38, 400)
+	const nLife = 18
 	length := 28
 	if hx.Tier() == "thorough" {
 		length = 45
@@ -1410,16 +1467,19 @@ func runAll(t *testing.T, mode string) {
 	}
 	for i := 0; i < nseq; i++ {
 		cfg := cfgT{}
-		if i < nLife && i%8 == 3 {
+		if i < nLife && i%9 == 3 {
 			cfg.mult = 10
-			if i >= 8 {
+			if i >= 9 {
 				five := sdkmath.LegacyNewDecWithPrec(5, 2)
 				cfg.pct = &five
 			}
 		}
-		if i < nLife && i%8 == 7 {
+		if i < nLife && i%9 == 8 {
+			cfg.mult = 2
+		}
+		if i < nLife && i%9 == 7 {
 			cfg.win = 4
-			if i >= 8 {
+			if i >= 9 {
 				cfg.unb = 10
 			}
 		}
